@@ -48,6 +48,8 @@ def observe(rows, fast, tf, until_ts):
             big = self.get_candles('Sandbox', 'BTC-USDT', '15m')
             log.append(('step', store.app.time, len(c), c[-1].tolist(), len(big), big[-1].tolist() if len(big) else None,
                         round(self.position.qty, 9), round(self.balance, 6),
+                        None if self.position.current_price is None else round(self.position.current_price, 6),
+                        round(self.position.pnl, 6) if self.position.is_open else 0.0, round(self.available_margin, 6), round(self.price, 6),
                         [(o.type, o.side, round(o.price, 6), o.status) for o in store.orders.get_orders('Sandbox', 'BTC-USDT')]))
 
         def on_open_position(self, order):
@@ -84,6 +86,9 @@ def two_runs(n, cut, fast, tf, seed):
 
 def replay(pl):
     ob = pl['obligation']
+    if ob.startswith('min-step'):
+        from native import C07
+        return C07.replay(pl)
     if ob.startswith('chunk-clock'):
         from native import C06
         d = C06.scenario_fill_times()
@@ -100,7 +105,11 @@ def replay(pl):
             if fast:
                 cut = max(15, (cut // 15) * 15)
             n = ((cut + 60 + 14) // 15) * 15
-            d = two_runs(n, cut, fast, '5m' if fast else '1m', pl.get('seed', 0)) or two_runs(n, cut, not fast, '1m' if fast else '5m', pl.get('seed', 0))
+            # the normal simulator also gets a length that is not a multiple of the timeframes (a legal input of research.backtest)
+            n_normal = n + 3
+            d = two_runs(n if fast else n_normal, cut, fast, '5m' if fast else '1m', pl.get('seed', 0)) \
+                or two_runs(n_normal if fast else n, cut, not fast, '1m' if fast else '5m', pl.get('seed', 0)) \
+                or two_runs(n_normal, cut, False, '5m', pl.get('seed', 0))
             if d:
                 return {'confirmed': True, 'detail': d}
     except Exception as ex:
